@@ -282,7 +282,7 @@ def _observe(record: Any, protos: Sequence[Any]) -> Outcome:
     index_of = {id(proto): i for i, proto in enumerate(protos)}
     found = []
     for candidate in record.get_candidate_clusters():
-        members = tuple(sorted(index_of.get(id(proto), -1) for proto in candidate.protoclusters))
+        members = tuple(sorted({index_of.get(id(proto), -1) for proto in candidate.protoclusters}))
         parts = tuple((int(p.start), int(p.end)) for p in candidate.location.parts)
         found.append((KIND_NAMES.get(str(candidate.kind), str(candidate.kind)), members, parts))
     return tuple(sorted(found))
@@ -574,10 +574,13 @@ def _is_promotion(clause: str, case: Dict[str, Any]) -> bool:
     groups = _materialised_groups(expectation)
     for kind, members in groups:
         for other_kind, other in groups:
-            if RANK[other_kind] < RANK[kind] and other < members and \
-                    _union(expectation.extents, other) == _union(expectation.extents, members) and \
+            same_span = _union(expectation.extents, other) == _union(expectation.extents, members)
+            if RANK[other_kind] < RANK[kind] and other < members and same_span and \
                     clause in (KIND_CLAUSE[kind], KIND_CLAUSE[other_kind]):
                 return True
+            if RANK[other_kind] <= RANK[kind] and other != members and not other < members and \
+                    not members < other and same_span and clause in (KIND_CLAUSE[kind], KIND_CLAUSE[other_kind]):
+                return True      # two different groups (e.g. two hybrids) with one span are folded too
     return False
 
 
@@ -590,9 +593,7 @@ def _single_pass_merge_fails(groups: Sequence[Set[int]], min_start: Sequence[int
     blocks: List[List[Set[int]]] = []
     for _, block in itertools.groupby(keyed, key=lambda group: min(min_start[i] for i in group)):
         blocks.append(list(block))
-    if sum(len(block) for block in blocks) > 8:
-        blocks = [[group] for block in blocks for group in block]        # keep it cheap
-    for choice in itertools.product(*[itertools.permutations(block) for block in blocks]):
+    for choice in itertools.islice(itertools.product(*[itertools.permutations(block) for block in blocks]), 720):
         ordered = [set(group) for block in choice for group in block]
         for index, first in enumerate(ordered[:-1]):
             if not first:
